@@ -301,7 +301,7 @@ func (e *env) checkB(ctx sdk.Context, gs []ghostMsg, path []int) {
 		}
 		e.count(fmt.Sprintf("b_queries_offering_%d", offered))
 		if len(gs) == 3 && caller == 0 && offered == 2 && path[0] == 19 && path[2]%5 == 0 {
-			r.Sample(map[string]interface{}{"part": "b", "queue": describe(gs), "caller": "v0", "offered": keys(got)})
+			e.sample("b", map[string]interface{}{"part": "b", "queue": describe(gs), "caller": "v0", "offered": keys(got)})
 		}
 	}
 }
